@@ -24,6 +24,7 @@ RULE = ('Hypothesis generates 1..10 fit results (1..6 fits each, best chi^2 incl
 RULE += (' ' + 'List inputs may have their final flag set in place after n_data was read.')
 RULE += (' ' + 'A third of the inputs hold sources that share a name (some, all, or all unnamed): names are labels, every record counts.')
 RULE += (' ' + 'A quarter of the file inputs are handed over through a symbolic link in another directory.')
+RULE += (' ' + 'Half of the list inputs hold results read from a fit file and revised afterwards (sources renamed, positions changed).')
 ASSUMPTIONS = [
     'an output that should hold no record may be a zero-byte / unreadable file (nothing is claimed about it)',
     'automatic output names are only defined for a file-name input (documented ValueError otherwise)',
@@ -81,7 +82,8 @@ def cases(draw):
     return {'names': names, 'nfilt': nfilt, 'records': recs, 'criterion': crit, 'threshold': thr, 'input': form,
             'auto': draw(st.booleans()) if form == 'file' else False, 'earlier_thresholds': before,
             'naming': draw(st.sampled_from(['both', 'both', 'good_explicit', 'bad_explicit'])),
-            'late_flags': draw(st.booleans()), 'source_naming': naming, 'via_link': draw(st.integers(0, 3)) == 0}
+            'late_flags': draw(st.booleans()), 'source_naming': naming, 'via_link': draw(st.integers(0, 3)) == 0,
+            'list_from_file': draw(st.booleans())}
 
 
 def read_or_empty(path, what):
@@ -119,6 +121,18 @@ def run_case(case, ctx):
                 int(so.n_data)
                 so.valid[0] = final
             labels.add('flags_finalised_in_place_after_n_data_was_read')
+        if case.get('list_from_file') and case['input'] == 'list':
+            # the list holds results that were read from a fit file and revised afterwards (sources renamed to the catalogue's
+            # designation, positions corrected): what is handed over is what must come out
+            first = os.path.join(d, 'first_pass.fitinfo')
+            fg.write_fit_file(first, infos)
+            with must_succeed('reading a fit file into a list'):
+                infos, _ = fg.read_fit_file(first)
+            for i_ in infos:
+                i_.source.name = 'fieldA-' + i_.source.name
+                i_.source.x = float(i_.source.x) + 0.25
+            case = dict(case, records=[dict(r, source=dict(r['source'], name='fieldA-' + r['source']['name'])) for r in case['records']])
+            labels.add('list_of_results_read_from_a_file_and_revised')
         snaps = [fg.snapshot(i) for i in infos]
         expect_good = []
         for r in case['records']:
